@@ -124,6 +124,13 @@ def multiMultDelegates (serves : Bool) (ms : List Nat) (infs : List Bool) : Bool
 
 /-! ### the concrete context of a `Curve` -/
 
+/-- `ec.is_on_curve(Q)` as the code stands: infinity first, then `x` in `0..p-1`, then `y` in `1..p-1`
+(`none` = raises), then the equation.  (`Btc.EC.isOnCurve` is the same without the x-range refusal.) -/
+def isOnCurveX (g : CurveGroup) (Q : Point) : Option Bool :=
+  if Q.2 = 0 then some true
+  else if ¬ (0 ≤ Q.1 ∧ Q.1 < g.p) then none
+  else isOnCurve g Q
+
 def ctxOf (c : Curve) : CurveCtx JacPoint Point where
   o := ecOps c.toCurveGroup
   n := c.n.toNat
@@ -131,7 +138,7 @@ def ctxOf (c : Curve) : CurveCtx JacPoint Point where
   GJ := c.GJ
   eqAff P Q := P == Q
   isInf Q := Q.2 == 0
-  onCurve := isOnCurve c.toCurveGroup
+  onCurve := isOnCurveX c.toCurveGroup
   isSecp := c == secp256k1
   scalarLen := bitLength c.n.toNat
   isFixed Q := Q == c.GJ || Q == negateJac c.toCurveGroup c.GJ
@@ -154,13 +161,13 @@ def isPrimeFermat (x : Int) : Bool := decide (x ≥ 2) && decide (x % 2 ≠ 0) &
 
 /-- which check refused the parameters (every one of them is a BTClibValueError) -/
 inductive NewErr
-  | pNotPrime | aNeg | aGe | bNeg | bGe | disc | genY | genOff | nNotPrime | hasse | infGen | order
+  | pNotPrime | aNeg | aGe | bNeg | bGe | disc | genX | genY | genOff | nNotPrime | hasse | infGen | order
   | cofactor | nEqP | mov
   deriving Repr, DecidableEq
 
 def NewErr.name : NewErr → String
   | .pNotPrime => "pprime" | .aNeg => "aneg" | .aGe => "age" | .bNeg => "bneg" | .bGe => "bge"
-  | .disc => "disc" | .genY => "geny" | .genOff => "genoff" | .nNotPrime => "nprime" | .hasse => "hasse"
+  | .disc => "disc" | .genX => "genx" | .genY => "geny" | .genOff => "genoff" | .nNotPrime => "nprime" | .hasse => "hasse"
   | .infGen => "infgen" | .order => "order" | .cofactor => "cofactor" | .nEqP => "neqp" | .mov => "mov"
 
 /-- `CurveGroup.__init__(p, a, b)` -/
@@ -179,6 +186,7 @@ def movWeak (p n : Int) : Bool := (List.range 99).any fun i => modPow p (i + 1) 
 /-- `Curve.__init__(p, a, b, G, n, cofactor, weakness_check, order_check)` -/
 def newCurve (p a b gx gy n h : Int) (weaknessCheck orderCheck : Bool) : Except NewErr Curve := do
   let g ← newCurveGroup p a b
+  if gy ≠ 0 ∧ ¬ (0 ≤ gx ∧ gx < p) then .error .genX else
   match isOnCurve g (gx, gy) with
   | none => .error .genY
   | some false => .error .genOff
@@ -188,9 +196,8 @@ def newCurve (p a b gx gy n h : Int) (weaknessCheck orderCheck : Bool) : Except 
     let delta : Int := Nat.sqrt (4 * p).toNat
     if h < 2 && !(p + 1 - delta ≤ n && n ≤ p + 1 + delta) then .error .hasse else
     if gy = 0 then .error .infGen else
-    let ordOk := !orderCheck ||
-      (match multRegularWindow (ecOps g) (bitLength n.toNat) n.toNat c.GJ Gen.Curves.MULT_W with
-       | some R => R.2.2 == 0 | none => false)
+    -- `_mult_jac_var(n, GJ)[2] != 0`: the Jacobian double-and-add, where `Z == 0` is infinity and nothing else
+    let ordOk := !orderCheck || (multJacVar (ecOps g) n.toNat c.GJ).2.2 == 0
     if !ordOk then .error .order else
     if h ≠ (1 + delta + p) / n then .error .cofactor else
     if n = p then .error .nEqP else
